@@ -13,7 +13,7 @@
 (*        [k |-> "str", s]  [k |-> "num", n]  [k |-> "int", i]             *)
 (*        [k |-> "bool", b] [k |-> "none"]    [k |-> "list", items]        *)
 (*        [k |-> "name", id]  (inf, nan: library constants)                *)
-(*        [k |-> "neg", a]                                                 *)
+(*        [k |-> "neg", a]   [k |-> "dict", items : Seq([key, val])]             *)
 (* Finite numbers are leaves holding the numeral; Python prints them with  *)
 (* repr(), whose digits are not modelled - the leaf is compared by value.  *)
 (* Abstract engines, numerals and CloseOne are those of FllSyntax.         *)
@@ -48,7 +48,9 @@ Pairs(p, alias) == IF p = <<>> THEN <<>> ELSE <<Call(ArrayFn(alias), <<ListNode(
 TermTree(t, alias, dec) ==
   LET fn == Prefix(alias, "term") \o t.cls  nm == StrNode(t.name)
       hs == IF HasHeight(t.cls) /\ ~CloseOne(t.h, dec) THEN <<NumNode(t.h, alias)>> ELSE <<>> IN
-  IF t.cls = "Function" THEN Call(fn, <<nm, StrNode(JoinWords(t.f))>>, <<>>)
+  IF t.cls = "Function" THEN
+       Call(fn, <<nm, StrNode(JoinWords(t.f))>>,
+            IF t.fv = <<>> THEN <<>> ELSE <<KW("variables", [k |-> "dict", items |-> [j \in 1..Len(t.fv) |-> [key |-> t.fv[j].n, val |-> NumNode(t.fv[j].v, alias)]]])>>)
   ELSE IF t.cls = "Linear" THEN Call(fn, <<nm, ListNode(NumNodes(t.p, alias))>>, <<>>)
   ELSE IF t.cls = "Discrete" THEN
        Call(fn, <<nm, Call(ArrayFn(alias), <<ListNode(IF t.p = <<>> THEN <<Call(ArrayFn(alias), <<ListNode(<<>>)>>, <<>>)>> ELSE Pairs(t.p, alias))>>, <<>>)>> \o hs, <<>>)
@@ -105,14 +107,14 @@ AllTermClasses == TermClasses
 WordsOf(s, d) == d          \* strings are compared as produced: the description / formula / rule words are carried alongside (see EvalWith)
 EvalTerm(c, alias, src) ==
   LET cls == ClassOf(c.fn, alias, "term", AllTermClasses)  nm == c.pos[1].s IN
-  IF cls = "Function" THEN [name |-> nm, cls |-> cls, p |-> <<>>, h |-> OneN, f |-> src.f]
-  ELSE IF cls = "Linear" THEN [name |-> nm, cls |-> cls, p |-> [j \in 1..Len(c.pos[2].items) |-> NumOf(c.pos[2].items[j])], h |-> OneN, f |-> <<>>]
+  IF cls = "Function" THEN [name |-> nm, cls |-> cls, p |-> <<>>, h |-> OneN, f |-> src.f, fv |-> IF HasKW(c, "variables") THEN [j \in 1..Len(GetKW(c, "variables").items) |-> [n |-> GetKW(c, "variables").items[j].key, v |-> NumOf(GetKW(c, "variables").items[j].val)]] ELSE <<>>]
+  ELSE IF cls = "Linear" THEN [name |-> nm, cls |-> cls, p |-> [j \in 1..Len(c.pos[2].items) |-> NumOf(c.pos[2].items[j])], h |-> OneN, f |-> <<>>, fv |-> <<>>]
   ELSE IF cls = "Discrete" THEN
        LET rows == c.pos[2].pos[1].items
            flat == Flatten([j \in 1..Len(rows) |-> [q \in 1..Len(rows[j].pos[1].items) |-> NumOf(rows[j].pos[1].items[q])]]) IN
-       [name |-> nm, cls |-> cls, p |-> flat, h |-> IF Len(c.pos) = 3 THEN NumOf(c.pos[3]) ELSE OneN, f |-> <<>>]
+       [name |-> nm, cls |-> cls, p |-> flat, h |-> IF Len(c.pos) = 3 THEN NumOf(c.pos[3]) ELSE OneN, f |-> <<>>, fv |-> <<>>]
   ELSE LET a == Arity[cls] IN
-       [name |-> nm, cls |-> cls, p |-> [j \in 1..a |-> NumOf(c.pos[j + 1])], h |-> IF Len(c.pos) = a + 2 THEN NumOf(c.pos[a + 2]) ELSE OneN, f |-> <<>>]
+       [name |-> nm, cls |-> cls, p |-> [j \in 1..a |-> NumOf(c.pos[j + 1])], h |-> IF Len(c.pos) = a + 2 THEN NumOf(c.pos[a + 2]) ELSE OneN, f |-> <<>>, fv |-> <<>>]
 EvalNorm(node, alias, classes) == IF node.k = "none" THEN "none" ELSE ClassOf(node.fn, alias, "norm", classes)
 EvalDefuzz(node, alias) ==
   IF node.k = "none" THEN NoDefuzz
